@@ -37,6 +37,7 @@ func c06kw(g *hgen) Val {
 		if r.Bool(0.5) {
 			return Val{K: "strer", S: "", D: 1} // non-zero stringer, empty text
 		}
+		return vAwk([]int{0, 1, 2, 3, 19, 23}[r.Intn(6)]) // typed-nil pointers: ignored
 	}
 	g.uniq++
 	if r.Bool(0.1) {
